@@ -37,20 +37,25 @@ open Drand Drand.Store
 /-! ### ties to the regenerated facts: the order of store/cursor calls inside `SyncChain` -/
 
 /-- `Last`, then (inside `Cursor`) `Seek(fromRound)` / `Next`, and only then `AddCallback`; `RemoveCallback(id)` on a
-failed live `Send` and on `ctx.Done` -/
+failed live `Send` and on `ctx.Done` — or (`Gen.syncChainRemovesOwnOnly`, reports/cb_fix_2.diff) the deferred remover of
+the stream's own registration, which go2lean checks separately (`remove := store.AddStreamCallback(…)`; `defer remove()`) -/
 theorem tie_syncchain_calls :
     Gen.syncChainCalls = ["store.Last(ctx)", "store.Cursor(ctx,func{…})", "c.Seek(ctx,fromRound)", "c.Next(ctx)",
-      "store.AddCallback(id,func{…})", "store.RemoveCallback(id)", "store.RemoveCallback(id)"] ∧
+      (if Gen.syncChainRegistersStream then "store.AddStreamCallback(id,func{…})" else "store.AddCallback(id,func{…})")] ++
+      (if Gen.syncChainRemovesOwnOnly then [] else ["store.RemoveCallback(id)", "store.RemoveCallback(id)"]) ∧
     Gen.syncChainScanLoop = "bb!=nil;bb,err=c.Next(ctx)" := by decide
 
 /-- the refusal check and the `fromRound != 0` guard around the scan -/
 theorem tie_syncchain_guards : Gen.syncChainGuards = ["err!=nil", "last.Round<fromRound", "fromRound!=0"] := by decide
 
 /-- the model's `put` queues the beacon for every attached stream unconditionally (`Strm.onPut` appends to an unbounded
-list): that is `callbackStore.Put` only as long as its dispatch is a plain channel send — which waits for room in the
-job queue (C12's concern) but never skips a callback. A `select` with a `default` branch would drop the beacon for a
-stream whose queue is full, and `c11_live_fifo` would no longer speak about the code. -/
-theorem tie_dispatch_lossless : Gen.callbackPutDispatchBlocking = true ∧ Gen.callbackPutBaseFirst = true := by decide
+list): that is `callbackStore.Put` as long as its dispatch is a plain channel send — which waits for room in the
+job queue (C12's concern) but never skips a callback. A `select` with a `default` branch that merely went on would drop
+the beacon for a stream whose queue is full, and `c11_live_fifo` would no longer speak about the code: go2lean refuses
+that shape. The one other shape it accepts is the repaired store, whose `default` branch ENDS the stream (`Strm.onPutR`;
+DrandProofs/C11R.lean shows that every run with it is a run of this machine with a `replaced` event at that point). -/
+theorem tie_dispatch_lossless :
+    (Gen.callbackPutDispatchBlocking = true ∨ Gen.callbackOverflowEndsConsumer = true) ∧ Gen.callbackPutBaseFirst = true := by decide
 
 /-! ### the witnesses (replayed on the real SyncChain: corpus/C11/*.json) -/
 
